@@ -379,6 +379,14 @@ func (ac *AutoConfig) InitialConfiguration(req *pbautoconf.AutoConfigRequest, re
 		return err
 	}
 
+	// The certificate is for an agent of this datacenter, like the request itself: the
+	// datacenter named by the SPIFFE ID of the CSR is not compared anywhere else on this
+	// path (SignCertificate is called without the checks of AuthorizeAndSignCertificate).
+	if opts.SpiffeID != nil && opts.SpiffeID.Datacenter != ac.config.Datacenter {
+		return fmt.Errorf("Spiffe ID datacenter (%s) of the certificate signing request is not this datacenter (%s)",
+			opts.SpiffeID.Datacenter, ac.config.Datacenter)
+	}
+
 	resp.Config = &pbconfig.Config{}
 
 	// update all the configurations
